@@ -96,6 +96,9 @@ def run_case(case, ses):
             ses.stats.notes.append('%s: solve/get failed: %s' % (name, e))
     sign = cm.o.obj[0]
 
+    if cp.qmat:
+        head_signs(ses, spec, cm, cp, vs, reported)
+
     if polyonly and not tolmode:
         # ---- (b) exact optima
         sp, vp = ses.optimum(P, vs[0], label=name + '/optP', ints=cp.int_vars(vs))
@@ -179,7 +182,56 @@ def run_case(case, ses):
             ses.stats.nontrivial.add(name)
 
 
+def head_signs(ses, spec, cm, cp, vs, reported):
+    """The optimum must not depend on the interface's way of stating a cone.  Gurobi receives  tail'tail <= head^2 , which
+    is the second-order cone only where head >= 0: rows and bounds of the compiled program alone must imply head >= 0 for every
+    cone (QF_LRA); if they do not, the quadratic reading of ALL cones is tried (QF_NRA).  A cone whose head can be negative under
+    that reading is vacuous there: the robust constraint it protects is switched off.  Replayed by solving the real model through
+    the Gurobi and the ECOS interface."""
+    z3 = z3mod()
+    name = spec['name']
+    lin = cp.row_cons(vs) + cp.bound_cons(vs, list(range(cp.n)))
+    quad = [z3.Sum([vs[j] * vs[j] for j in q[1:]]) <= vs[q[0]] * vs[q[0]] for q in cp.qmat]
+    for k, q in enumerate(cp.qmat):
+        label = '%s/cone%d-head-sign' % (name, k)
+        res, _ = ses.oblige(label, lin, [vs[q[0]] < 0], kind='interface-reading-head-sign', core=False, twin=(k == 0))
+        if res == 'unsat':
+            continue
+        ses.retract(label, kind='interface-reading-head-sign', core=False) if res == 'unknown' else None
+        res2, _ = ses.oblige(label + '/quadratic-reading', lin + quad, [vs[q[0]] < 0], kind='interface-reading-head-sign',
+                             core=False, twin=False, timeout_ms=10000)
+        if res2 == 'unsat':
+            continue
+        data = dict(spec=spec, grb_reading=True, cone=k, head=int(q[0]), eco=reported)
+        if replay(data):
+            finding(ses, 'C02:%s:grb-reading' % name, 'model %s: the head of cone %d (column %d) of the compiled program is not '
+                    'sign-constrained; through the Gurobi interface (tail\'tail <= head^2) the optimum differs from the ECOS value %r'
+                    % (name, k, q[0], reported), data, 'rsv.props.c02:replay')
+            return
+        ses.stats.notes.append('undecided: %s (head may be negative under the quadratic reading; the Gurobi interface did not return a different optimum)' % label)
+
+
 def replay(data, verbose=False):
+    if data.get('grb_reading'):
+        try:
+            from rsome import grb_solver, eco_solver
+        except Exception:  # noqa
+            return False
+        vals = {}
+        for nm, solver in (('eco', eco_solver), ('grb', grb_solver)):
+            with quiet():
+                cm = Compiled(desc_from_spec(data['spec']))
+                try:
+                    cm.r.m.solve(solver, display=False, params=({'TimeLimit': 20} if nm == 'grb' else {}))
+                    vals[nm] = cm.r.m.get()
+                except Exception as e:  # noqa
+                    vals[nm] = 'no solution (%s)' % str(e)[:60]
+        if verbose:
+            print('model %s: ECOS %r, Gurobi %r' % (data['spec']['name'], vals['eco'], vals['grb']))
+        a, b = vals['eco'], vals['grb']
+        if isinstance(a, str):
+            return False
+        return isinstance(b, str) or abs(a - b) > 1e-4 * (1 + abs(a))
     """Reproduce on the real code: the semantic point is rejected by the real compiled program
     (HiGHS/ECOS on the real formula with the interface columns pinned is infeasible) or the real
     solver's optimum differs from the exact semantic optimum."""
